@@ -19,25 +19,26 @@ def main():
         lib.cimaged11_omp_set_num_threads(ctypes.c_int(int(job["threads"])))
     fn = getattr(lib, job["function"])
     cargs, arrays = [], {}
+    libc = ctypes.CDLL(None)
+    libc.malloc.restype = ctypes.c_void_p
+    libc.malloc.argtypes = [ctypes.c_size_t]
     for a in job["args"]:
         if a["kind"] == "array":
             arr = np.array(a["values"], dtype=DT[a["ctype"]])
-            if arr.size == 0:
-                arr = np.zeros(1, dtype=DT[a["ctype"]])[:0]
-            # exact-size heap buffer so that the sanitizer sees the true bounds
-            buf = (CT[a["ctype"]] * max(arr.size, 0))()
+            # exact-size libc heap buffer (not a ctypes/pymalloc object) so that the sanitizer sees the true bounds, also for length 0
+            ptr = libc.malloc(arr.nbytes)
             if arr.size:
-                ctypes.memmove(buf, arr.ctypes.data, arr.nbytes)
-            arrays[a["name"]] = (buf, a["ctype"], arr.size)
-            cargs.append(ctypes.cast(buf, ctypes.c_void_p))
+                ctypes.memmove(ptr, arr.ctypes.data, arr.nbytes)
+            arrays[a["name"]] = (ptr, a["ctype"], arr.size, arr.nbytes)
+            cargs.append(ctypes.c_void_p(ptr))
         else:
             cargs.append(CT[a["ctype"]](a["value"]))
     rt = job.get("restype")
     fn.restype = CT[rt] if rt else None
     ret = fn(*cargs)
     out = {"return": ret if rt else None, "arrays": {}}
-    for name, (buf, ctype, n) in arrays.items():
-        out["arrays"][name] = np.frombuffer(buf, dtype=DT[ctype], count=n).tolist() if n else []
+    for name, (ptr, ctype, n, nbytes) in arrays.items():
+        out["arrays"][name] = np.frombuffer(ctypes.string_at(ptr, nbytes), dtype=DT[ctype], count=n).tolist() if n else []
     print("REPLAY-RESULT " + json.dumps(out))
 
 
